@@ -1,6 +1,7 @@
 package props
 
 import (
+	"encoding/base64"
 	"encoding/json"
 	"fmt"
 	"go/ast"
@@ -41,10 +42,35 @@ type c01Spec struct {
 	Program string   `json:"program"`
 	Input   int      `json:"input"`
 	Data    string   `json:"data,omitempty"`
+	Data64  string   `json:"data_base64,omitempty"` // input bytes that are not valid UTF-8 (a JSON string could not carry them to the replay)
 	HasData bool     `json:"has_data,omitempty"`
 	Fuzzing bool     `json:"fuzzing,omitempty"`
 	Sels    []string `json:"selectors,omitempty"`
 	Argv    []string `json:"argv,omitempty"`
+}
+
+// program text and input bytes need not be valid UTF-8 (the byte-string family, stray bytes): they travel as fw.Text
+func (s c01Spec) MarshalJSON() ([]byte, error) {
+	type plain c01Spec
+	return json.Marshal(struct {
+		plain
+		Program fw.Text `json:"program"`
+		Data    fw.Text `json:"data,omitempty"`
+	}{plain(s), fw.Text(s.Program), fw.Text(s.Data)})
+}
+
+func (s *c01Spec) UnmarshalJSON(b []byte) error {
+	type plain c01Spec
+	aux := struct {
+		*plain
+		Program fw.Text `json:"program"`
+		Data    fw.Text `json:"data,omitempty"`
+	}{plain: (*plain)(s)}
+	if err := json.Unmarshal(b, &aux); err != nil {
+		return err
+	}
+	s.Program, s.Data = string(aux.Program), string(aux.Data)
+	return nil
 }
 
 func c01Allowed(k drive.ErrKind) bool {
@@ -61,7 +87,10 @@ const c01Budget = 4000
 func c01RunOne(c *fw.Ctx, s c01Spec) *fw.Violation {
 	sp := drive.Spec{Program: s.Program, Selectors: s.Sels, Fuzzing: s.Fuzzing, WantRoot: true, Budget: c01Budget}
 	if s.Form == "text" {
-		if s.HasData {
+		if s.Data64 != "" {
+			b, _ := base64.StdEncoding.DecodeString(s.Data64)
+			sp.Files = []drive.File{{Name: "in.json", Data: string(b)}}
+		} else if s.HasData {
 			sp.Files = []drive.File{{Name: "in.json", Data: s.Data}}
 		}
 	} else if in := c01Inputs[s.Input]; in.has {
@@ -352,6 +381,27 @@ func c01Hazards(c *fw.Ctx) {
 		}
 	}
 	c.State("indices beyond every integer type")
+	// input bytes: every string of <= 3 bytes over marks, brackets, quotes, digits, blanks and NUL, alone and before a document, as first and as second input
+	bytesAlpha := []string{"\xef", "\xbb", "\xbf", "\xfe", "\xff", "[", "]", "1", "\"", " ", "\x00", "{", "-"}
+	var inputs []string
+	var recIn func(cur string, n int)
+	recIn = func(cur string, n int) {
+		inputs = append(inputs, cur, cur+"[1,2]")
+		if n == 3 {
+			return
+		}
+		for _, b := range bytesAlpha {
+			recIn(cur+b, n+1)
+		}
+	}
+	recIn("", 0)
+	for _, in := range inputs {
+		for _, prog := range []string{"{ print }", "BEGINFILE { print $file, $ } END { print \"end\" }"} {
+			s := c01Spec{Form: "text", Program: prog, Data64: base64.StdEncoding.EncodeToString([]byte(in)), HasData: true, Fuzzing: true}
+			c.Do(func() any { return s }, func() *fw.Violation { return c01RunOne(c, s) })
+		}
+	}
+	c.State("inputs of a few odd bytes")
 }
 
 func c01CLI(c *fw.Ctx, s c01Spec) *fw.Violation {
